@@ -65,7 +65,8 @@ Definition mismatches := mismatches_from 0.
 
 (* ---- size-boundary stream: blocks of hundreds/thousands of generated transactions ----------------------
    The harness does not write such blocks out; it names them ([GGen n tag bad] = the n transactions
-   "k0000=tag", "k0001=tag", ... with, optionally, the one at index [fst bad] replaced by the text [snd bad])
+   "k<n-1>=tag", ..., "k0001=tag", "k0000=tag" (four digits, keys descending so that the model's sorted
+   insertion stays linear) with, optionally, the one at index [fst bad] replaced by the text [snd bad])
    and reports fingerprints (length and a polynomial hash) of the roots and of the final datastore instead
    of the strings.  The model is run on the expanded history; the full strings are compared on the Go side
    by the oracle. *)
@@ -78,8 +79,8 @@ Definition gen_tx (tag : string) (i : N) : string := append "k" (append (pad4 i)
 Definition gen_txs (n : N) (tag : string) (bad : option (N * string)) : list string :=
   map (fun i => let i := N.of_nat i in
                 match bad with
-                | Some (j, t) => if (i =? j)%N then t else gen_tx tag i
-                | None => gen_tx tag i
+                | Some (j, t) => if (i =? j)%N then t else gen_tx tag (n - 1 - i)
+                | None => gen_tx tag (n - 1 - i)
                 end) (seq 0 (N.to_nat n)).
 
 Inductive gitem := GI (i : item) | GGen (n : N) (tag : string) (bad : option (N * string)).
